@@ -143,6 +143,10 @@ pub struct LogCase {
     pub present: [bool; 5],
     pub evaluations: Option<u32>,
     pub best: Option<i32>,
+    /// (start, len): the rules start .. start+len (clamped) are registered with ONE `with_many` call, all under the
+    /// trigger of the first of them (only applied when that trigger is stateless and none of them is `with_common`)
+    #[serde(default)]
+    pub many: Option<(u8, u8)>,
 }
 
 /// `LogCase::best`: i32::MAX encodes a best individual whose objective value is +inf (an infeasible solution)
@@ -373,7 +377,7 @@ impl Check for LogCheck {
         "C15/log".into()
     }
     fn classes(&self) -> &'static [&'static str] {
-        &[">= 3 steps", "duplicate name among fired rules", "missing source (null entry)", "execution where nothing fires", "rule produces the iteration entry itself", "logger in a scope", "trigger error"]
+        &[">= 3 steps", "duplicate name among fired rules", "missing source (null entry)", "execution where nothing fires", "rule produces the iteration entry itself", "logger in a scope", "trigger error", "rules registered through with_many"]
     }
     fn oracle(&self, c: &LogCase) -> Outcome {
         let mut cl = 0;
@@ -382,7 +386,54 @@ impl Check for LogCheck {
     }
 }
 
+/// The group of rules registered through `with_many` (see `LogCase::many`), if the case has a usable one.
+fn many_group(c: &LogCase) -> Option<(usize, usize)> {
+    let (start, len) = c.many?;
+    if c.rules.len() < 2 {
+        return None;
+    }
+    let start = start as usize % c.rules.len();
+    let end = (start + 2 + len as usize % 4).min(c.rules.len());
+    if end - start < 2 {
+        return None;
+    }
+    if !matches!(c.rules[start].0, Trig::Always | Trig::Never | Trig::EveryN(_)) {
+        return None;
+    }
+    if c.rules[start..end].iter().any(|(_, e)| matches!(e, Extr::Common)) {
+        return None;
+    }
+    Some((start, end))
+}
+
+fn extractor_of(e: &Extr) -> Box<dyn mahf::logging::extractor::EntryExtractor<RealP>> {
+    match e {
+        Extr::H(k) => match k % 5 {
+            0 => Box::new(HL0),
+            1 => Box::new(HL1),
+            2 => Box::new(HL2),
+            3 => Box::new(HL3),
+            _ => Box::new(HL4),
+        },
+        Extr::Iterations => ValueOf::<Iterations>::entry::<RealP>(),
+        Extr::Evaluations => IdLens::<Evaluations>::entry::<RealP>(),
+        Extr::BestObjective => BestObjectiveValueLens::<RealP>::entry(),
+        Extr::Missing | Extr::Common => Box::new(MissingLens),
+    }
+}
+
 fn log_oracle(c: &LogCase, cl: &mut u64) -> Result<(), Failure> {
+    // rules registered through one with_many call share (clones of) the first one's trigger
+    let mut grouped = c.clone();
+    let group = many_group(c);
+    if let Some((start, end)) = group {
+        let t = grouped.rules[start].0.clone();
+        for r in &mut grouped.rules[start + 1..end] {
+            r.0 = t.clone();
+        }
+        *cl |= 128;
+    }
+    let c = &grouped;
     let mut m = LogModel { case: c, hv: [None; 5], iterations: 0, progress: 0.0, script_pos: BTreeMap::new(), prev: None, steps: Vec::new() };
     for k in 0..5 {
         if c.present[k] {
@@ -450,7 +501,15 @@ fn log_oracle(c: &LogCase, cl: &mut u64) -> Result<(), Failure> {
                 state.insert(bi);
             }
             state.configure_log(|cfg| {
-                for (t, e) in &rules {
+                for (k, (t, e)) in rules.iter().enumerate() {
+                    if let Some((start, end)) = group {
+                        if k == start {
+                            cfg.with_many(build_trigger(t), rules[start..end].iter().map(|(_, e)| extractor_of(e)).collect::<Vec<_>>());
+                        }
+                        if k >= start && k < end {
+                            continue;
+                        }
+                    }
                     let trig = build_trigger(t);
                     match e {
                         Extr::H(k) => match k % 5 {
@@ -622,8 +681,8 @@ fn renumber_scripts(t: &mut Trig, next: &mut u16) {
 
 fn log_strategy() -> impl Strategy<Value = LogCase> {
     let extr = prop_oneof![6 => (0u8..5).prop_map(Extr::H), 2 => Just(Extr::Iterations), 1 => Just(Extr::Evaluations), 1 => Just(Extr::Common), 1 => Just(Extr::BestObjective), 1 => Just(Extr::Missing)];
-    (proptest::collection::vec((trig_strategy(), extr), 0..7), proptest::option::of((0u8..3, 0u8..7)), 0u8..5, 0u32..13, [any::<bool>(), any::<bool>(), any::<bool>(), any::<bool>(), any::<bool>()], proptest::option::of(0u32..100), proptest::option::of(prop_oneof![5 => -5i32..50, 1 => Just(i32::MAX)]))
-        .prop_map(|(mut rules, change, structure, iters, present, evaluations, best)| {
+    (proptest::collection::vec((trig_strategy(), extr), 0..7), proptest::option::of((0u8..3, 0u8..7)), 0u8..5, 0u32..13, [any::<bool>(), any::<bool>(), any::<bool>(), any::<bool>(), any::<bool>()], proptest::option::of(0u32..100), proptest::option::of(prop_oneof![5 => -5i32..50, 1 => Just(i32::MAX)]), proptest::option::of((any::<u8>(), any::<u8>())))
+        .prop_map(|(mut rules, change, structure, iters, present, evaluations, best, many)| {
             // at most one ChangeOf trigger (they share their `Previous` state by value type)
             if let (Some((k, pos)), false) = (change, rules.is_empty()) {
                 let i = pos as usize % rules.len();
@@ -635,7 +694,7 @@ fn log_strategy() -> impl Strategy<Value = LogCase> {
             }
             // the progress value after a zero-iteration loop is 0/0
             let iters = if structure % 5 == 1 { iters.max(1) } else { iters };
-            LogCase { rules, structure, iters, present, evaluations, best }
+            LogCase { rules, structure, iters, present, evaluations, best, many }
         })
 }
 
